@@ -110,13 +110,15 @@ def run(ctx, res):
                 M = ('ok', mv[1]) if mv[0] == 'ok' else (('exc', 'ValueError') if mv[0] == 'error' else ('unmodelled',))
                 if M[0] != 'unmodelled' and I[:1] + ((I[1],) if I[0] == 'ok' else ()) != M[:1] + ((M[1],) if M[0] == 'ok' else ()):
                     res.disagreements.append({'what': 'canon(%s, %r): implementation %r, model %r' % (dt.split('#')[-1], s, I, M), 'replay': {'datatype': dt, 'form': s, 'kind': kind}})
-                    continue
+                    agree = False
+                else:
+                    agree = True
                 if M[0] == 'unmodelled':
                     res.count('model:unmodelled')
                 res.distinct.add((dt, s))
                 if I[0] == 'exc':
                     fid = 'integer-aborts' if dt == XSD + 'integer' else None
-                    if fid == 'integer-aborts' and fid in known:
+                    if fid == 'integer-aborts' and fid in known and agree:
                         res.violations.append({'key': fid, 'what': 'recorded finding reproduced', 'replay': None}); res.count('finding:' + fid)
                     else:
                         res.violations.append({'key': None, 'sig': 'abort:' + dt, 'what': 'an ill-typed value aborts the run: datatype %s, form %r: %s' % (dt, s, iv), 'replay': {'datatype': dt, 'form': s, 'kind': kind}})
@@ -126,7 +128,7 @@ def run(ctx, res):
                     res.count('ok:' + why)
                     continue
                 fid = classify_integer(s) if dt == XSD + 'integer' else ('datetime-blanks' if dt == XSD + 'dateTime' else ('boolean-unicode' if dt == XSD + 'boolean' else None))
-                if fid in known:
+                if fid in known and agree:
                     res.violations.append({'key': fid, 'what': 'recorded finding reproduced', 'replay': None}); res.count('finding:' + fid)
                 else:
                     res.violations.append({'key': None, 'sig': 'value:' + dt + ':' + str(fid), 'what': 'datatype %s: %s' % (dt.split('#')[-1], why), 'replay': {'datatype': dt, 'form': s, 'kind': kind}})
